@@ -901,6 +901,19 @@ def desugar_iter(body, qualname):
                % (recv, p1[0], _strip_block(b1), p2[0], _strip_block(b2), callee, restargs))
         body = body[:st] + rep + body[ce + 1:]
         applied.append({'rule': 'D6 filter+map argument -> eager Vec + into_iter', 'callee': callee})
+    # ---- R15 : destructuring assignment `(a, b) = E;` => `{ let verif_tupleK = E; a = verif_tupleK.0; b = verif_tupleK.1; }`
+    # (Rust reference, "Destructuring assignments": desugars to a `let` with the same pattern followed by assignments)
+    n_tup = 0
+    while True:
+        mt = re.search(r'(?m)^([ \t]*)\(\s*([A-Za-z_][A-Za-z0-9_]*)\s*,\s*([A-Za-z_][A-Za-z0-9_]*)\s*\)\s*=\s*([^;\n]+);', body)
+        if not mt:
+            break
+        var = 'verif_tuple%d' % n_tup
+        n_tup += 1
+        ind = mt.group(1)
+        rep = '%s{ let %s = %s; %s = %s.0; %s = %s.1; }' % (ind, var, mt.group(4).strip(), mt.group(2), var, mt.group(3), var)
+        body = body[:mt.start()] + rep + body[mt.end():]
+        applied.append({'rule': 'R15 destructuring assignment -> let + assignments', 'targets': [mt.group(2), mt.group(3)]})
     # ---- D7 : for X in E.take(N) BLOCK  =>  let mut verif_takenK: usize = 0; for X in E { if verif_takenK < N { verif_takenK += 1; BLOCK } }
     # (std: `take(n)` "yields the first n elements, or fewer if the underlying iterator ends sooner"; elements after the first N are pulled
     # from the underlying iterator and ignored instead of not being pulled - unobservable for iterators over collections, the only use)
